@@ -216,6 +216,40 @@ def rule_syndrome_table(repo: Repo, rep: Report) -> int:
     return n + rule_syndrome_rest(repo, rep, ci)
 
 
+def error_patterns_evaluated(gp: FuncInfo):
+    """_generate_error_patterns(weight) evaluated (own arithmetic, the recursive closure followed with the enclosing scratch
+    buffer and result list shared) for n = 4, 5, 6 and every weight: the rows must be exactly the C(n, w) distinct 0/1
+    words of weight w.  Returns (status, detail) or (None, reason)."""
+    from itertools import combinations as _comb
+
+    from ..constfold import Unfoldable
+    from ..frag import FragRaise, FragReturn, run_fragment
+
+    params = [p_ for p_ in gp.params if p_ != "self"]
+    if len(params) != 1:
+        return None, "unexpected signature"
+    cases = 0
+    for n_ in (4, 5, 6):
+        for w in range(1, n_ + 1):
+            try:
+                run_fragment(gp.body, {params[0]: w}, {"self.code_length": n_}, materialise=True, max_steps=400000)
+                return None, "no value returned"
+            except FragReturn as ret:
+                got = ret.value
+            except (Unfoldable, FragRaise, TypeError, IndexError, ValueError, RecursionError) as exc:
+                return None, str(exc)
+            if not (isinstance(got, list) and all(isinstance(r, list) and len(r) == n_ and all(isinstance(v, (int, float)) and not isinstance(v, bool) and v in (0, 1) for v in r) for r in got)):
+                return None, f"n = {n_}, weight {w}: the result is not a 0/1 matrix with {n_} columns"
+            rows = sorted(tuple(int(v) for v in r) for r in got)
+            want = sorted(tuple(1 if i in c_ else 0 for i in range(n_)) for c_ in _comb(range(n_), w))
+            if rows != want:
+                missing = [r for r in want if r not in rows]
+                extra = [r for r in rows if r not in want]
+                return VIOLATION, f"n = {n_}, weight {w}: {len(got)} patterns are generated, the C({n_},{w}) = {len(want)} words of weight {w} are required" + (f"; missing {list(missing[0])}" if missing else "") + (f"; not of weight {w} / repeated: {list(extra[0])}" if extra else (" (a word is repeated)" if len(rows) != len(set(rows)) else "")) + ": a correctable error pattern is never tried (its coset gets a heavier leader) or the table is filled with wrong words"
+            cases += 1
+    return OK, f"{cases} (n, weight) pairs: exactly the C(n, w) distinct words of weight w"
+
+
 def rule_syndrome_rest(repo: Repo, rep: Report, ci) -> int:
     """pattern generator and the correction step of forward (the part of the syndrome-lookup rule that does not depend on
     how the table is filled)"""
@@ -223,7 +257,14 @@ def rule_syndrome_rest(repo: Repo, rep: Report, ci) -> int:
     # exhaustive pattern generator
     gp = repo.method(ci, "_generate_error_patterns")
     rec = gp.nested("generate_recursive")
-    if rec is None:
+    pst_, pd_ = error_patterns_evaluated(gp)
+    if pst_ is not None:
+        rep.add("COSET-LEADER", gp, "_generate_error_patterns evaluated for n = 4, 5, 6 and every weight 1 .. n", pst_, pd_, node=gp.node)
+        n += 3
+        rec = False
+    if rec is False:
+        pass
+    elif rec is None:
         rep.undecided("COSET-LEADER", gp, "generate_recursive", "closure not found")
     else:
         fl = [s for s in rec.body if isinstance(s, ast.For)]
@@ -238,9 +279,10 @@ def rule_syndrome_rest(repo: Repo, rep: Report, ci) -> int:
         ok = "current[pos] = 1" in body and "generate_recursive(current, ones_left - 1, pos + 1)" in body and "current[pos] = 0" in body and "patterns.append(current.clone())" in body
         rep.expect(ok, "COSET-LEADER", gp, "set bit, recurse with (ones_left - 1, pos + 1), clear bit; a clone is stored at ones_left == 0", "backtracking enumeration of all supports", "pattern enumeration changed")
         n += 2
-    w1 = [s for s in stmts_of(gp.body) if isinstance(s, ast.Assign) and unparse(s) == "patterns[i, i] = 1"]
-    rep.expect(len(w1) == 1, "COSET-LEADER", gp, "weight-1 patterns: identity rows", "all n single-error patterns", "weight-1 patterns changed")
-    n += 1
+    if rec is not False:
+        w1 = [s for s in stmts_of(gp.body) if isinstance(s, ast.Assign) and unparse(s) == "patterns[i, i] = 1"]
+        rep.expect(len(w1) == 1, "COSET-LEADER", gp, "weight-1 patterns: identity rows", "all n single-error patterns", "weight-1 patterns changed")
+        n += 1
     # forward: XOR the leader, extract with the encoder
     fwd = repo.method(ci, "forward")
     corr = [s for s in ast.walk(fwd.node) if isinstance(s, ast.Assign) and unparse(s.targets[0]) == "corrected"]
